@@ -33,6 +33,10 @@ pub fn s_trim_end_crlf(s: &str) -> &str { s.trim_end_matches("\r\n") }
 pub fn s_trim_start_sp(s: &str) -> &str { s.trim_start_matches(' ') }
 pub fn s_trim_end_sp(s: &str) -> &str { s.trim_end_matches(' ') }
 pub fn s_trim_start_zero_str(s: &str) -> &str { s.trim_start_matches("0") }
+pub fn s_trim_end_set(s: &str) -> &str { s.trim_end_matches(&['\r', '\n']) }
+pub fn s_trim_start_set(s: &str) -> &str { s.trim_start_matches(['a', ' ']) }
+pub fn s_find_set(s: &str) -> Option<usize> { s.find(&[' ', '\r'][..]) }
+pub fn b_utf8_upto(b: &[u8]) -> usize { match std::str::from_utf8(b) { Ok(s) => 1000 + s.len(), Err(e) => e.valid_up_to() * 10 + if e.error_len().is_none() { 1 } else { 2 } } }
 pub fn s_eq_ic(s: &str) -> bool { s.eq_ignore_ascii_case("tcp4") }
 pub fn s_is_ascii(s: &str) -> bool { s.is_ascii() }
 pub fn s_parse_u8(s: &str) -> Option<u8> { s.parse::<u8>().ok() }
